@@ -643,6 +643,12 @@ func (c *FnCtx) evalSpecBuiltin(x *ast.CallExpr, fobj *types.Func, st *State) st
 		return "(= " + c.eval(x.Args[0], st) + " " + c.eval(x.Args[1], st) + ")"
 	case "V_hasPrefix":
 		return "(str.prefixof " + c.eval(x.Args[1], st) + " " + c.eval(x.Args[0], st) + ")"
+	case "V_contains":
+		return "(str.contains " + c.eval(x.Args[0], st) + " " + c.eval(x.Args[1], st) + ")"
+	case "V_after":
+		// the part of s after the first occurrence of sep (s itself when sep does not occur)
+		s, sep := c.eval(x.Args[0], st), c.eval(x.Args[1], st)
+		return ite("(< (str.indexof "+s+" "+sep+" 0) 0)", s, "(str.substr "+s+" (+ (str.indexof "+s+" "+sep+" 0) (str.len "+sep+")) (str.len "+s+"))")
 	case "V_hasSuffix":
 		return "(str.suffixof " + c.eval(x.Args[1], st) + " " + c.eval(x.Args[0], st) + ")"
 	case "V_kindof":
